@@ -64,6 +64,10 @@ func (g *GTPv1U) DecodeFromBytes(data []byte, df gopacket.DecodeFeedback) error 
 	}
 	//  Field used to multiplex different connections in the same GTP tunnel.
 	g.TEID = binary.BigEndian.Uint32(data[4:8])
+	// The optional fields are only present (and only assigned below) under their flags.
+	g.SequenceNumber = 0
+	g.NPDU = 0
+	g.GTPExtensionHeaders = g.GTPExtensionHeaders[:0]
 	cIndex := hLen
 	if g.SequenceNumberFlag || g.NPDUFlag || g.ExtensionHeaderFlag {
 		hLen += 4
